@@ -358,6 +358,7 @@ class Expander:
                     for s in node.body:
                         if isinstance(s, ast.FunctionDef):
                             self._do_function(modname, node, s)
+            attribute_aliases(m.tree)
             sink_selected_receivers(m.tree)
             unroll_literal_loops(m.tree)
             loops_to_comprehensions(m.tree)
@@ -371,6 +372,108 @@ class Expander:
     def _do_function(self, modname, cls, fn: ast.FunctionDef):
         self._current = f"{modname}:{cls.name}.{fn.name}" if cls is not None else f"{modname}:{fn.name}"
         self._rewrite_block(modname, cls, fn, fn.body, _locals_of(fn), 0)
+
+
+def _attr_writers(cls: ast.ClassDef) -> Dict[str, Optional[Set[str]]]:
+    """method name -> attributes of self it may rebind (directly, or through self.<method>() calls inside the class);
+    None = unknown (it calls a self-method this class does not define, or uses setattr / __dict__)."""
+    direct: Dict[str, Optional[Set[str]]] = {}
+    calls: Dict[str, Set[str]] = {}
+    methods = {m.name: m for m in cls.body if isinstance(m, ast.FunctionDef)}
+    for name, m in methods.items():
+        me = m.args.args[0].arg if m.args.args else None
+        w: Optional[Set[str]] = set()
+        cs: Set[str] = set()
+        for x in ast.walk(m):
+            if isinstance(x, ast.Attribute) and isinstance(x.ctx, (ast.Store, ast.Del)) and isinstance(x.value, ast.Name) and x.value.id == me:
+                if w is not None:
+                    w.add(x.attr)
+            elif isinstance(x, ast.Call) and isinstance(x.func, ast.Name) and x.func.id in ("setattr", "delattr", "vars"):
+                w = None
+            elif isinstance(x, ast.Attribute) and x.attr == "__dict__":
+                w = None
+            elif isinstance(x, ast.Call) and isinstance(x.func, ast.Attribute) and isinstance(x.func.value, ast.Name) and x.func.value.id == me:
+                cs.add(x.func.attr)
+        direct[name], calls[name] = w, cs
+    out: Dict[str, Optional[Set[str]]] = {}
+
+    def closure(name, seen):
+        if name not in methods:
+            return None
+        if name in seen:
+            return set()
+        acc = direct[name]
+        if acc is None:
+            return None
+        acc = set(acc)
+        for c in calls[name]:
+            r = closure(c, seen | {name})
+            if r is None:
+                return None
+            acc |= r
+        return acc
+    for name in methods:
+        out[name] = closure(name, frozenset())
+    return out
+
+
+def attribute_aliases(tree: ast.AST):
+    """`x = <expr>` ... `self.a = x` at the top level of a method, with `x` bound once, `self.a` stored once in the method and no
+    later `self.<m>()` call that may rebind `a`: from there on `x` and `self.a` name the same object, so later loads of `x`
+    are rewritten to `self.a` (building a value in a local and publishing it is the same program as storing it and reading it
+    back). The rules read what is done to / with the attribute."""
+    for cls in [n for n in ast.walk(tree) if isinstance(n, ast.ClassDef)]:
+        writers = None
+        for fn in [m for m in cls.body if isinstance(m, ast.FunctionDef)]:
+            if not fn.args.args or any(isinstance(d, ast.Name) and d.id in ("staticmethod", "classmethod") for d in fn.decorator_list):
+                continue
+            me = fn.args.args[0].arg
+            params = {a.arg for a in fn.args.args + fn.args.kwonlyargs + fn.args.posonlyargs} | ({fn.args.vararg.arg} if fn.args.vararg else set()) | ({fn.args.kwarg.arg} if fn.args.kwarg else set())
+            stores: Dict[str, int] = {}
+            attr_stores: Dict[str, int] = {}
+            scoped = set()
+            for x in ast.walk(fn):
+                if isinstance(x, ast.Name) and isinstance(x.ctx, (ast.Store, ast.Del)):
+                    stores[x.id] = stores.get(x.id, 0) + 1
+                elif isinstance(x, ast.Attribute) and isinstance(x.ctx, (ast.Store, ast.Del)) and isinstance(x.value, ast.Name) and x.value.id == me:
+                    attr_stores[x.attr] = attr_stores.get(x.attr, 0) + 1
+                elif isinstance(x, (ast.Global, ast.Nonlocal)):
+                    scoped |= set(x.names)
+                elif isinstance(x, (ast.FunctionDef, ast.Lambda)) and x is not fn:
+                    scoped |= {a.arg for a in x.args.args}      # a nested scope may shadow the name: leave such names alone
+            body = fn.body
+            for j, st in enumerate(body):
+                if not (isinstance(st, ast.Assign) and len(st.targets) == 1 and isinstance(st.targets[0], ast.Attribute) and isinstance(st.targets[0].value, ast.Name) and st.targets[0].value.id == me
+                        and isinstance(st.value, ast.Name)):
+                    continue
+                x, a = st.value.id, st.targets[0].attr
+                if x in params or x in scoped or x == me or stores.get(x) != 1 or attr_stores.get(a) != 1:
+                    continue
+                if not any(isinstance(b, ast.Assign) and len(b.targets) == 1 and isinstance(b.targets[0], ast.Name) and b.targets[0].id == x for b in body[:j]):
+                    continue
+                if writers is None:
+                    writers = _attr_writers(cls)
+                blocked = False
+                for later in body[j + 1:]:
+                    for c in ast.walk(later):
+                        if isinstance(c, ast.Call) and isinstance(c.func, ast.Attribute) and isinstance(c.func.value, ast.Name) and c.func.value.id == me:
+                            w = writers.get(c.func.attr)
+                            if c.func.attr not in writers:
+                                # not a method of this class: a callable attribute or an inherited method
+                                w = None
+                            if w is None or a in w:
+                                blocked = True
+                if blocked:
+                    continue
+                for later in body[j + 1:]:
+                    for node in ast.walk(later):
+                        for f_, val in ast.iter_fields(node):
+                            if isinstance(val, ast.Name) and val.id == x and isinstance(val.ctx, ast.Load):
+                                setattr(node, f_, ast.copy_location(ast.Attribute(value=ast.Name(id=me, ctx=ast.Load()), attr=a, ctx=ast.Load()), val))
+                            elif isinstance(val, list):
+                                for k, v in enumerate(val):
+                                    if isinstance(v, ast.Name) and v.id == x and isinstance(v.ctx, ast.Load):
+                                        val[k] = ast.copy_location(ast.Attribute(value=ast.Name(id=me, ctx=ast.Load()), attr=a, ctx=ast.Load()), v)
 
 
 MUTATORS = {"append", "appendleft", "extend", "insert", "add", "update", "setdefault", "remove", "discard", "pop", "popleft", "clear"}
